@@ -21,7 +21,7 @@ RULE = ('programs from vlib.writerprog.gen_program; non-trivial = >=2 accepted s
         'property; distinct = (per-session per-segment object kinds/data kinds/lengths, property notes)')
 ASSUMPTIONS = ['Python int lists must come back as an integer dtype holding all values (not a specific one)',
                'empty arrays of dtypes without a TDMS mapping carry no type requirement']
-REQUIRED = ['read_back_through_writer_index', 'objects_from_another_file', 'programs', 'segments_accepted', 'channels_compared', 'props_compared', 'prop_types_observed', 'append_sessions', 'path_targets',
+REQUIRED = ['programs_reusing_objects', 'programs_on_preexisting_empty_file', 'read_back_through_writer_index', 'objects_from_another_file', 'programs', 'segments_accepted', 'channels_compared', 'props_compared', 'prop_types_observed', 'append_sessions', 'path_targets',
             'names_checked']
 N = {'quick': 8000, 'thorough': 1000000}
 
@@ -73,6 +73,10 @@ def run_case(case, ctx):
         ctx.count('path_targets')
     if len(prog.sessions) > 1:
         ctx.count('append_sessions')
+    if prog.reuse_objects:
+        ctx.count('programs_reusing_objects')
+    if prog.precreate_empty:
+        ctx.count('programs_on_preexisting_empty_file')
     ctx.count('objects_from_another_file', sum(1 for sess in prog.sessions for seg in sess for o in seg if o['kind'].startswith('tdms')))
     try:
         data, idx, shadow, log = WP.run_program(prog, nptdms, ctx.tmpdir)
